@@ -83,6 +83,7 @@ def flowSem (repaired : Bool) (nodes : Nat → Node) (exc : Nat → Nat → E) (
 inductive Seen (E : Type) where
   | nothing
   | failedChild (cause : Option E)
+  deriving DecidableEq, Repr
 
 def seen (b : Book E) : Seen E :=
   match b.errors with
